@@ -1,0 +1,28 @@
+//go:build verif
+// +build verif
+
+package rand
+
+import "sync/atomic"
+
+// Verification hook (build tag verif): a conformance harness may supply the
+// bytes Read returns (it pins TCP initial sequence numbers). Without a hook
+// installed Read behaves as always.
+var verifSource atomic.Value // func([]byte) bool
+
+// VerifSetSource installs f (nil removes it). f fills b and returns true, or
+// returns false to let crypto/rand answer this call.
+func VerifSetSource(f func(b []byte) bool) {
+	verifSource.Store(&f)
+}
+
+func verifRead(b []byte) (int, bool) {
+	p, _ := verifSource.Load().(*func([]byte) bool)
+	if p == nil || *p == nil {
+		return 0, false
+	}
+	if (*p)(b) {
+		return len(b), true
+	}
+	return 0, false
+}
